@@ -105,3 +105,178 @@ pub const PROTOCOL_NAME: StreamProtocol = protocol::DEFAULT_PROTO_NAME;
 /// Constant shared across tests for the [`Multihash`](libp2p_core::multihash::Multihash) type.
 #[cfg(test)]
 const SHA_256_MH: u64 = 0x12;
+
+/// Verification hooks (only with `--cfg libp2p_verif`): thin access to crate-private items.
+#[cfg(libp2p_verif)]
+pub mod verif {
+    use std::{num::NonZeroUsize, time::Duration};
+
+    pub use crate::{
+        handler::{HandlerEvent, HandlerIn, RequestId},
+        kbucket::KeyBytes,
+        proto::{Message as ProtoMessage, Peer as ProtoPeer, Record as ProtoRecord},
+        protocol::{Codec, KadRequestMsg, KadResponseMsg, ProtocolConfig},
+        query::verif::{
+            ClosestPeersIter, ClosestPeersIterConfig, DisjointIter, FixedIter, PeersIterState,
+        },
+    };
+    use crate::{
+        NodeStatus,
+        kbucket::{Entry, InsertResult, KBucketConfig, KBucketsTable},
+    };
+
+    /// Controllable clock for the k-bucket pending-entry timeout: the real monotonic clock plus a
+    /// thread-local offset that only the verification driver advances.
+    pub mod clock {
+        use std::{cell::Cell, ops::Add, time::Duration};
+
+        thread_local! {
+            static OFFSET: Cell<Duration> = const { Cell::new(Duration::ZERO) };
+        }
+
+        /// Moves this thread's clock forward by `d`.
+        pub fn advance(d: Duration) {
+            OFFSET.with(|o| o.set(o.get() + d))
+        }
+
+        #[derive(Clone, Copy, PartialEq, Eq, PartialOrd, Ord, Debug)]
+        pub struct Instant(web_time::Instant);
+
+        impl Instant {
+            pub fn now() -> Self {
+                Instant(web_time::Instant::now() + OFFSET.with(|o| o.get()))
+            }
+
+            pub fn checked_sub(&self, d: Duration) -> Option<Self> {
+                self.0.checked_sub(d).map(Instant)
+            }
+        }
+
+        impl Add<Duration> for Instant {
+            type Output = Instant;
+
+            fn add(self, d: Duration) -> Instant {
+                Instant(self.0 + d)
+            }
+        }
+    }
+
+    /// What `KBucketsTable::entry` found for a key.
+    #[derive(Debug, Clone, Copy, PartialEq, Eq)]
+    pub enum EntryState {
+        Present(NodeStatus),
+        Pending(NodeStatus),
+        Absent,
+        SelfEntry,
+    }
+
+    /// `InsertResult`.
+    #[derive(Debug, Clone, PartialEq, Eq)]
+    pub enum Inserted {
+        Inserted,
+        Pending { disconnected: KeyBytes },
+        Full,
+    }
+
+    /// `KBucketsTable<KeyBytes, ()>` behind its `Entry` API.
+    #[derive(Clone)]
+    pub struct Table(KBucketsTable<KeyBytes, ()>);
+
+    impl Table {
+        pub fn new(local_key: KeyBytes, bucket_size: NonZeroUsize, pending_timeout: Duration) -> Self {
+            let mut config = KBucketConfig::default();
+            config.set_bucket_size(bucket_size);
+            config.set_pending_timeout(pending_timeout);
+            Table(KBucketsTable::new(local_key, config))
+        }
+
+        /// `entry(key)` and its state.
+        pub fn entry_state(&mut self, key: &KeyBytes) -> EntryState {
+            match self.0.entry(key) {
+                None => EntryState::SelfEntry,
+                Some(Entry::Present(_, s)) => EntryState::Present(s),
+                Some(Entry::Pending(_, s)) => EntryState::Pending(s),
+                Some(Entry::Absent(_)) => EntryState::Absent,
+            }
+        }
+
+        /// `entry(key)`; if absent, `AbsentEntry::insert`. `Err` = the entry state that prevented it.
+        pub fn insert(&mut self, key: &KeyBytes, status: NodeStatus) -> Result<Inserted, EntryState> {
+            match self.0.entry(key) {
+                Some(Entry::Absent(e)) => Ok(match e.insert((), status) {
+                    InsertResult::Inserted => Inserted::Inserted,
+                    InsertResult::Pending { disconnected } => Inserted::Pending { disconnected },
+                    InsertResult::Full => Inserted::Full,
+                }),
+                None => Err(EntryState::SelfEntry),
+                Some(Entry::Present(_, s)) => Err(EntryState::Present(s)),
+                Some(Entry::Pending(_, s)) => Err(EntryState::Pending(s)),
+            }
+        }
+
+        /// `entry(key)`; `PresentEntry::update` / `PendingEntry::update`. Returns the state found.
+        pub fn update(&mut self, key: &KeyBytes, status: NodeStatus) -> EntryState {
+            match self.0.entry(key) {
+                None => EntryState::SelfEntry,
+                Some(Entry::Present(mut e, s)) => {
+                    e.update(status);
+                    EntryState::Present(s)
+                }
+                Some(Entry::Pending(e, s)) => {
+                    e.update(status);
+                    EntryState::Pending(s)
+                }
+                Some(Entry::Absent(_)) => EntryState::Absent,
+            }
+        }
+
+        /// `entry(key)`; `PresentEntry::remove` / `PendingEntry::remove`. Returns the state found.
+        pub fn remove(&mut self, key: &KeyBytes) -> EntryState {
+            match self.0.entry(key) {
+                None => EntryState::SelfEntry,
+                Some(Entry::Present(e, s)) => {
+                    e.remove();
+                    EntryState::Present(s)
+                }
+                Some(Entry::Pending(e, s)) => {
+                    e.remove();
+                    EntryState::Pending(s)
+                }
+                Some(Entry::Absent(_)) => EntryState::Absent,
+            }
+        }
+
+        pub fn closest_keys(&mut self, target: &KeyBytes) -> Vec<KeyBytes> {
+            self.0.closest_keys(target).collect()
+        }
+
+        pub fn closest(&mut self, target: &KeyBytes) -> Vec<(KeyBytes, NodeStatus)> {
+            self.0.closest(target).map(|e| (e.node.key, e.status)).collect()
+        }
+
+        pub fn count_nodes_between(&mut self, target: &KeyBytes) -> usize {
+            self.0.count_nodes_between(target)
+        }
+
+        /// `(inserted, evicted)`.
+        pub fn take_applied_pending(&mut self) -> Option<(KeyBytes, Option<KeyBytes>)> {
+            self.0
+                .take_applied_pending()
+                .map(|a| (a.inserted.key, a.evicted.map(|n| n.key)))
+        }
+
+        /// `iter()`: number of entries per non-empty bucket in table order (applies pending entries).
+        pub fn iter_num_entries(&mut self) -> Vec<usize> {
+            self.0.iter().map(|b| b.num_entries()).collect()
+        }
+
+        /// Side-effect free view of bucket `i` (0..256).
+        #[allow(clippy::type_complexity)]
+        pub fn raw_bucket(
+            &self,
+            i: usize,
+        ) -> (Vec<(KeyBytes, NodeStatus)>, Option<(KeyBytes, NodeStatus, bool)>) {
+            self.0.verif_bucket(i)
+        }
+    }
+}
